@@ -1853,6 +1853,23 @@ impl OverlayFs {
         self.copy_regfile_up(ctx, Arc::clone(&node))
     }
 
+    // Whether any lower layer of the directory `pnode` has a (non-whiteout) entry `name`.
+    fn lower_layers_have_child(ctx: &Context, pnode: &Arc<OverlayInode>, name: &str) -> Result<bool> {
+        for ri in pnode.real_inodes.lock().unwrap().iter() {
+            if ri.in_upper_layer {
+                continue;
+            }
+            if let Some(child) = ri.lookup_child(ctx, name)? {
+                if !child.whiteout {
+                    return Ok(true);
+                }
+                // A whiteout in this layer hides everything below it.
+                return Ok(false);
+            }
+        }
+        Ok(false)
+    }
+
     fn do_rm(&self, ctx: &Context, parent: u64, name: &CStr, dir: bool) -> Result<()> {
         if self.upper_layer.is_none() {
             return Err(Error::from_raw_os_error(libc::EROFS));
@@ -1891,7 +1908,9 @@ impl OverlayFs {
         let mut need_whiteout = true;
         let pnode = self.copy_node_up(ctx, Arc::clone(&pnode))?;
 
-        if node.upper_layer_only() {
+        // A copied-up file has dropped its lower real inodes, so `upper_layer_only()` alone does
+        // not tell whether a lower layer still holds the name: ask the parent's lower layers.
+        if node.upper_layer_only() && !Self::lower_layers_have_child(ctx, &pnode, sname.as_str())? {
             need_whiteout = false;
         }
 
